@@ -1,0 +1,101 @@
+"""Verification hooks (add-only, off unless OPENPINCH_VERIF=1).
+
+When the guard is on, a few functions are re-bound at the bottom of their
+modules to thin wrappers that append one event per call to ``EVENTS`` (and,
+if OPENPINCH_VERIF_TRACE names a file, write a one-line JSON summary there).
+Events are recorded after the state change, on the error path too.  With the
+guard off nothing is wrapped and this module is inert.
+"""
+import functools
+import json
+import os
+
+ON = os.environ.get("OPENPINCH_VERIF") == "1"
+EVENTS = []
+_seq = 0
+_depth = {}
+
+
+def reset():
+    global _seq
+    EVENTS.clear()
+    _seq = 0
+
+
+def emit(ev, **fields):
+    global _seq
+    if not ON:
+        return
+    _seq += 1
+    rec = {"seq": _seq, "ev": ev}
+    rec.update(fields)
+    EVENTS.append(rec)
+    sink = os.environ.get("OPENPINCH_VERIF_TRACE")
+    if sink:
+        with open(sink, "a") as fh:
+            fh.write(json.dumps({"seq": _seq, "ev": ev, "keys": sorted(fields)}) + "\n")
+
+
+def wrap_insert(fn):
+    """ProblemTable.insert_temperature_interval: table before / request / table after / return value."""
+    @functools.wraps(fn)
+    def inner(self, T_ls):
+        before = None if self.data is None else self.data.copy()
+        ret, err = None, None
+        try:
+            ret = fn(self, T_ls)
+            return ret
+        except BaseException as e:  # recorded on the error path too
+            err = repr(e)
+            raise
+        finally:
+            emit("insert", before=before, req=T_ls, after=None if self.data is None else self.data.copy(),
+                 ret=ret, err=err, col_index=dict(self.col_index))
+    return inner
+
+
+def wrap_save_graph(kind, fn):
+    """_save_graph_data rounds pt / pt_real in place to 4 dp: snapshot the unrounded tables first."""
+    @functools.wraps(fn)
+    def inner(pt, pt_real):
+        emit("tables", kind=kind, pt=pt.data.copy(), pt_real=pt_real.data.copy(), col_index=dict(pt.col_index))
+        return fn(pt, pt_real)
+    return inner
+
+
+def wrap_zone(kind, fn):
+    """compute_direct/indirect_integration_targets: begin / end markers carrying the zone object."""
+    @functools.wraps(fn)
+    def inner(zone, *a, **k):
+        emit(kind + "_begin", zone=zone)
+        err = None
+        try:
+            return fn(zone, *a, **k)
+        except BaseException as e:
+            err = repr(e)
+            raise
+        finally:
+            emit(kind + "_end", zone=zone, err=err)
+    return inner
+
+
+def wrap_call(name, fn):
+    """Generic begin/end wrapper with a nesting-depth counter (nested calls are not re-recorded)."""
+    @functools.wraps(fn)
+    def inner(*a, **k):
+        d = _depth.get(name, 0)
+        _depth[name] = d + 1
+        if d == 0:
+            emit(name + "_begin", args=a, kwargs=k)
+        ret, err = None, None
+        try:
+            ret = fn(*a, **k)
+            return ret
+        except BaseException as e:
+            err = repr(e)
+            raise
+        finally:
+            _depth[name] = d
+            if d == 0:
+                emit(name + "_end", ret=ret, err=err)
+    return inner
